@@ -340,9 +340,37 @@ class PathSense:
             facts = facts | frozenset(cs)
         return facts
 
+    @classmethod
+    def _eval3(cls, e: ast.expr, facts) -> Optional[bool]:
+        """Three-valued truth of a test under the known facts (None = unknown)."""
+        if isinstance(e, ast.UnaryOp) and isinstance(e.op, ast.Not):
+            v = cls._eval3(e.operand, facts)
+            return None if v is None else (not v)
+        if isinstance(e, ast.BoolOp):
+            vals = [cls._eval3(v, facts) for v in e.values]
+            if isinstance(e.op, ast.And):
+                if any(v is False for v in vals):
+                    return False
+                return True if all(v is True for v in vals) else None
+            if any(v is True for v in vals):
+                return True
+            return False if all(v is False for v in vals) else None
+        if isinstance(e, ast.Constant) and isinstance(e.value, (bool, type(None))):
+            return bool(e.value)
+        for txt, pol in test_atoms(e, True)[:1] if not isinstance(e, ast.BoolOp) else []:
+            if (txt, True) in facts:
+                return pol
+            if (txt, False) in facts:
+                return not pol
+        return None
+
     def _edge(self, facts, a: int, lab) -> Optional[FrozenSet[Tuple[str, bool]]]:
         n = self.g.nodes[a]
         atoms: List[Tuple[str, bool]] = []
+        if n.kind == "test" and outcome(self.g, a, lab) is not None:
+            v = self._eval3(n.stmt.test, facts)
+            if v is not None and v != (outcome(self.g, a, lab) == "true"):
+                return None
         if n.kind == "test" and outcome(self.g, a, lab) is not None:
             atoms = test_atoms(n.stmt.test, outcome(self.g, a, lab) == "true")
         elif n.kind == "stmt" and isinstance(n.stmt, ast.Assert) and lab != "exc":
